@@ -6,7 +6,7 @@ RULE = ("(M+G) exhaustive TLC run of Projection.tla over the quick constants (ev
         "invariants KeyEq, ExclusionSound, NoLoss, MatchesDocumentedOrder, StrictTotal; every complete behaviour is printed "
         "as a replay case with the declarative expectation and run on a real ProjectionParser/Projection; plus seeded "
         "-simulate behaviours over the full menu (10 expressions, <=3 per parser), 3 config keys, 5 value tokens "
-        "(1000/1k/9/NaN/x), sub-name keys and gomaxprocs, streams of 5. distinct_nontrivial = distinct cases in which "
+        "(1000/1k/9/NaN/x; and 1Ki/1Z/1Zi/1Y/1Yi/1k for the SI and IEC suffixes), sub-name keys and gomaxprocs, streams of 5. distinct_nontrivial = distinct cases in which "
         "some projection interns at least two different keys.")
 
 
@@ -19,6 +19,10 @@ def run(ctx, focus):
     r2 = ctx.tlc("Projection_gen.tla", "Projection_gen_sim.cfg", timeout=2400, simulate=nsim, depth=12, label="simulate+gen",
                  workers=8 if q else 16)
     cases += r2.printed_json("case")
+    # SI / IEC suffixes up to Yi under the num order
+    r2b = ctx.tlc("Projection_gen.tla", "Projection_gen_sim2.cfg", timeout=2400, simulate=max(10, nsim // 4), depth=12, label="simulate+gen",
+                  workers=8 if q else 16)
+    cases += r2b.printed_json("case")
     if not q:
         r3 = ctx.tlc("Projection_gen.tla", "Projection_gen_thorough.cfg", timeout=3000, label="bfs+gen")
         cases += r3.printed_json("case")
